@@ -488,6 +488,48 @@ func rulePerRangePickersDistinct(c *Ctx, rule string) {
 			c.ob(rule, cl, "an ip accepted for one requested range is excluded for the later ranges", w, ok1 && ok2, fmt.Sprintf("the picker's `return true` lies behind the not-Has edge of a set shared across ranges (%v) and passes Insert into that set (%v): allocator and lookup report k distinct ips for k ranges", ok1, ok2))
 		}
 	}
+	// matching form of the lookup: the answers are written from a map keyed by ip (ip -> index of the range it answers), so an
+	// ip answers one range only by construction
+	if fn := c.Fn(fipPkg, "(*crdIpam).ByKeyAndIPRanges"); fn != nil {
+		for _, f := range withAnon(fn) {
+			allInstrs(f, func(in ssa.Instruction) {
+				st, ok := in.(*ssa.Store)
+				if !ok || typeNameOf(st.Val.Type()) != "FloatingIPInfo" {
+					return
+				}
+				ia, ok := st.Addr.(*ssa.IndexAddr)
+				if !ok {
+					return
+				}
+				if _, isMk := unspill(ia.X).(*ssa.MakeSlice); !isMk {
+					if _, isFV := ia.X.(*ssa.UnOp); !isFV {
+						return
+					}
+				}
+				// index = value of a map range, stored info derived from the key of the same iteration
+				ex, ok := ia.Index.(*ssa.Extract)
+				if !ok {
+					return // the picker form writes ipinfos[i] with the loop index: judged above
+				}
+				nx, ok := ex.Tuple.(*ssa.Next)
+				if !ok || ex.Index != 2 {
+					return
+				}
+				rg, ok := nx.Iter.(*ssa.Range)
+				if !ok {
+					return
+				}
+				mt, isMap := rg.X.Type().Underlying().(*types.Map)
+				okKey := isMap && types.Identical(mt.Key().Underlying(), types.Typ[types.String])
+				fromKey := dependsOn(st.Val, func(x ssa.Value) bool {
+					e2, ok := x.(*ssa.Extract)
+					return ok && e2.Tuple == ssa.Value(nx) && e2.Index == 1
+				})
+				n++
+				c.ob(rule, f, "an ip answers one requested range only", st, okKey && fromKey, "ipinfos[i] is written while ranging over a map keyed by ip (ip -> range index) with the entry of that very ip: two ranges cannot be answered by one ip")
+			})
+		}
+	}
 	if n < 2 {
 		c.undecided(rule, nil, "per-range pickers", nil, fmt.Sprintf("expected the allocator's and the lookup's picker, found %d", n))
 	}
